@@ -828,5 +828,7 @@ Definition catalogue : list ty := [
   TyVec (TyVec (TyInt I32)); TyVec (TyVec TyStr); TyVec (TyMap (TyInt I32));
   TyMap TyBool; TyMap (TyInt I32); TyMap (TyInt U64); TyMap TyDbl; TyMap TyStr; TyMap (TyVec (TyInt I32)); TyMap (TyMap TyStr);
   ty_inner; ty_mix; TyVec ty_inner; TyMap ty_inner;
-  ty_attr; TyVec ty_attr; ty_attronly; TyVec ty_attronly
+  ty_attr; TyVec ty_attr; ty_attronly; TyVec ty_attronly;
+  (* std::u16string, std::u32string, std::wstring (transcoded by the archive layer): the same model type *)
+  TyStr; TyStr; TyStr; TyVec TyStr; TyMap TyStr
 ].
